@@ -210,6 +210,12 @@ func checkC06(c *Ctx) {
 		if i%5 == 0 {
 			cells = r.IR(6, 14)
 		}
+		if i%6 == 1 { // resolutions where the octree has no slack: powers of two and their neighbours
+			cells = pickOne(r, []int{8, 16, 32, 64, 7, 9, 15, 17, 31, 33, 63})
+			if !c.Quick && r.P(0.3) {
+				cells = pickOne(r, []int{127, 128, 129})
+			}
+		}
 		sh := c06MakeShape(r, i)
 		cs := c06Case{i, rk.name, cells, sh.desc}
 		rd := rk.mk(cells)
